@@ -3,7 +3,7 @@
    removed, escape-aware label walk) and dba5ede (the refresh parses downloads only). *)
 From Coq Require Import Permutation.
 From Sdns Require Import Common.Base Gen.C18 C18.Model C18.Spec
-  C18.Proofs_match C18.Proofs_disk C18.Proofs_reload C18.Proofs_final C18.Proofs_equiv C18.Proofs_refresh C18.Proofs_walk C18.Proofs_examples C18.Proofs_fault.
+  C18.Proofs_match C18.Proofs_disk C18.Proofs_reload C18.Proofs_final C18.Proofs_equiv C18.Proofs_refresh C18.Proofs_walk C18.Proofs_examples C18.Proofs_fault C18.Proofs_allsteps C18.Proofs_spelling.
 Open Scope N_scope.
 
 (* Matching is exact on whole labels, case-insensitive, whitelist first: for every
@@ -272,3 +272,42 @@ Theorem disk_converges_aba_example :
   s_local aba_s5 = Some (snap_bytes (mk_snap (s_version aba_s5) (bm (s_mem aba_s5)) (bwild (s_mem aba_s5)))).
 Proof. exact aba_converges_lemma. Qed.
 Print Assumptions disk_converges_aba_example.
+
+(* ---- wave 5 *)
+
+(* Everything at once, at the granularity the code has.  refreshRemote does not add a
+   downloaded list atomically: parseHostFile takes mu once per name, so API calls land
+   between two names; a download that fails or is cut short contributes a prefix or nothing.
+   All of that is one step kind, "some name goes through set()" (ASet, any name, any time);
+   asteps = API mutations + persists in any order + persists that FAIL + such steps.
+   Whatever happens, `local` is the initial file or the complete snapshot stamped
+   lastPersisted; once lastPersisted = version it is the list of the newest saving call,
+   and the memory is that list plus what the refresh has added since. *)
+Theorem everything_heals : forall b0 l0 s,
+  asteps (init b0 l0) s ->
+  (s_last s = 0 /\ s_local s = l0) \/
+  (exists ex wi, s_local s = Some (snap_bytes (mk_snap (s_last s) ex wi)) /\
+     (s_last s = s_version s ->
+      exists b, Permutation ex (bm b) /\ Permutation wi (bwild b) /\ grows b (s_mem s))).
+Proof. exact everything_heals_lemma. Qed.
+Print Assumptions everything_heals.
+
+(* the atomic refresh of the earlier theorems (Model.sys_refresh, any downloaded lists) is
+   a sequence of such set() steps: asteps subsumes steps, fsteps, rsteps and gsteps *)
+Theorem refresh_is_sets : forall dl s, asteps s (sys_refresh dl s).
+Proof. exact refresh_is_sets_lemma. Qed.
+Print Assumptions refresh_is_sets.
+
+(* ABOUT THE PROPOSED CODE (props/C18/fix.patch, on offer for the finding
+   blocklist-entry-spelling; NOT in /repo): with canonicalKey — as a function on names
+   Spec.present after Spec.name_of (Proofs_spelling.canonical_key; compared with the patch's
+   Go function on 600 random keys in a scratch worktree: equal on all) — at every entry point,
+   the matching statement holds for entries and probes in ANY spelling: typed by hand,
+   \DDD, mixed case, or the wire decoder's.  W: the suffixes of the wildcard entries. *)
+Theorem exists_spec_any_spelling_proposed : forall (M W Wl : list str) (q : str),
+  Forall (fun s => wireP (name_of s)) M -> Forall (fun s => wireP (name_of s)) W ->
+  Forall (fun s => wireP (name_of s)) Wl -> wireP (name_of q) ->
+  (bl_exists_proposed (state_proposed M W Wl) q = true <->
+   blocked_spec (map name_of M) (map name_of W) (map name_of Wl) (name_of q)).
+Proof. exact exists_spec_any_spelling_lemma. Qed.
+Print Assumptions exists_spec_any_spelling_proposed.
